@@ -31,7 +31,7 @@ import itertools, json, os
 from vlib import treegen as tg, paths
 from checks import c06
 
-LEAN_TARGETS = ["LyModel.Props.C13", "LyModel.Props.C13Merge"]
+LEAN_TARGETS = ["LyModel.Props.C13", "LyModel.Props.C13Merge", "LyModel.Props.C13Tree"]
 AUDIT = "Audit/C13.lean"
 GENERATED = ["Diff13"]
 HARNESS = "api_diff13"
@@ -248,6 +248,15 @@ def c06_through(s, T, W, D, verdict, o, feat0):
     else:
         case = {"law": "cmp", "verdict": "0", "features": sorted(feat), "opts": o}
     return c06.classify("diff", "", case)
+
+
+def merge_dflt_repaired():
+    """Generated/Diff13.lean mergeDfltNeedsDeletedDflt (written by tools/extractors/diff13.py from the source on this run)"""
+    try:
+        t = open(os.path.join(paths.LEAN, "LyModel", "Generated", "Diff13.lean")).read()
+        return "mergeDfltNeedsDeletedDflt : Bool := true" in t
+    except Exception:
+        return False
 
 
 def in_fragment(feat):
@@ -531,6 +540,56 @@ def process(cx, schemas, cases, tag, reverse=True, merge=True, laws_every=4, mer
     ri = run_impl(cx, schemas, lines)
     rm = run_model(cx, schemas, mlines)
     compare(cx, lines, ri, rm, kind_of, nontriv)
+    # ---- 2b. the hypotheses of merge_apply_partial_tree (Props/C13Tree.lean), evaluated by the model on every triple of the
+    # fragment; where they hold the theorem says that the model's merge3 succeeds with the verdict "same" (LYD_DIFF_DEFAULTS;
+    # with LYD_DIFF_MERGE_DEFAULTS given the repaired F18(b)) — and the correspondence above carries that over to libyang
+    if merge:
+        hl, hidx = [], {}
+        for k, c in enumerate(cases):
+            if c.c is None or 1 not in c.D1 or 1 not in c.D2 or 1 in c.gap:
+                continue
+            if any(n.is_userord() or n.dup_inst() for n in c.s.nodes):
+                cx.dist["hyp3: schema has user-ordered / duplicate-instance nodes (outside merge_apply_partial_tree)"] += 1
+                continue
+            i = "h%s%d" % (tag, k)
+            hl.append("%s %s hyp3 %s %s %s %s %s" % (i, COMP, tg.hx(c.s.dsl()), c.a, c.b, c.c, fx))
+            hidx[i] = (k, c)
+        hm = run_model(cx, schemas, hl)
+        f18b_fixed = cx.findings.get("F18", {}).get("status") == "fixed" or merge_dflt_repaired()
+        for l in hl:
+            i = l.split()[0]
+            k, c = hidx[i]
+            r = hm.get(i, ["err", "NoReply"])
+            if r[0] != "ok" or len(r) != 5:
+                cx.disagree(COMP, l, ["ok", "?", "?", "?", "?"], r)
+                continue
+            holds = r[1:5] == ["1", "1", "1", "1"]
+            feat = merge_features(c.s, tg.untok(c.s, c.a), tg.untok(c.s, c.b), tg.untok(c.s, c.c), c.D1[1], c.D2[1], None, None, 1, 0)
+            cells = sorted(x for x in feat if x.startswith("cell:"))
+            leafcell = any(x.split(":")[2] in ("leaf", "leaflist") for x in cells)
+            inlist = any(x == "cell:none+none:list" for x in cells)
+            shape = ("meets:" + ("none" if not cells else ("leaf-cells-inside-list-instances" if (leafcell and inlist) else
+                     ("leaf-cells" if leafcell else "inner-only")))) if holds else \
+                ("not-mergeSafe" if r[1:4] == ["1", "1", "1"] else "hyps:" + "".join(r[1:5]))
+            cx.dist["hyp3(merge_apply_partial_tree): " + ("HOLDS " if holds else "") + shape] += 1
+            cx.count(" ".join(l.split()[2:]), holds and bool(cells), "hyp3:" + shape)
+            if not holds:
+                if r[1:4] != ["1", "1", "1"]:
+                    # schemaOK / wfForest / canonT must hold for every generated triple of the fragment
+                    cx.disagree(COMP, l, ["ok", "1", "1", "1", r[4]], r)
+                continue
+            for mo in (0, 1):
+                if mo and not f18b_fixed:
+                    continue
+                j = "m%s%d.%d%d" % (tag, k, 1, mo)
+                for who, rep in (("model", rm), ("impl", ri)):
+                    a = rep.get(j)
+                    if a is None or a[:2] in (["err", "Crash"], ["err", "Timeout"], ["err", "NoReply"]):
+                        continue
+                    if not (a[0] == "ok" and a[-1] in ("same",)):
+                        # contradicts the proved theorem (model) / the theorem + correspondence (implementation)
+                        cx.disagree(COMP, "theorem merge_apply_partial_tree applies (hyp3 holds) but %s merge3 says otherwise: %s" % (who, l),
+                                    ["ok", "...", "same"], a[:1] + a[-2:])
     # ---- 3. the laws, on the implementation's own answers
     for i, (c, o, mo) in idx.items():
         r = ri.get(i, ["err", "NoReply"])
